@@ -16,7 +16,7 @@ PROP = dict(
     )],
     model_targets=["Extract/Extract.vo"],
     _vecerr=True,
-    rule="state-aware random histories (20-90 ops) over create / append / write_at / truncate_write / truncate / rename / "
+    rule="[engine vecerr: five refused requests in rotation x four formats - checked_push at a wrong index, remove of a held vector, plain import with another version, rollback without a record, plain import of the name through ANOTHER storage format (no auxiliary region may appear)] state-aware random histories (20-90 ops) over create / append / write_at / truncate_write / truncate / rename / "
          "remove (with and without a second live handle) / retain / flush / region flush / compact / reopen / set_min_len / "
          "set_min_regions, sizes from {0,1,sub-page,4095/4096/4097,straddling,multi-doubling,>1 MiB}, 15% malformed requests; "
          "after EVERY step the whole allocator state (slots, all five layout maps incl. tie-break order, file length, regions "
